@@ -182,7 +182,17 @@ func (fs *FS) newFile(path string, flag int, mode hackpadfs.FileMode) *file {
 	}
 }
 
+// save writes the record of an open handle back to the store.
+// If the file was removed or renamed away since it was opened, the handle stays usable but no longer has a name:
+// like with an os.File, writing through it must not make the old name exist again.
 func (f *fileData) save() error {
+	_, err := f.fs.getFile(f.path)
+	if errors.Is(err, hackpadfs.ErrNotExist) {
+		return nil
+	}
+	if err != nil {
+		return err
+	}
 	return f.fs.setFile(f.path, f)
 }
 
